@@ -188,11 +188,39 @@ def run_harness_sharded(cases, tag="batch", shards=None):
     return res
 
 
+def raw_wellformed(raw):
+    """The configuration object is one serde accepts: known keys carry values of their types (foreign keys are ignored)."""
+    if not isinstance(raw, dict):
+        return False
+    for k in ("chainSourceMap", "comments", "literals"):
+        if k in raw and not isinstance(raw[k], bool):
+            return False
+    for k in ("localVarPrefix", "telemetryVerbosity"):
+        if k in raw and not isinstance(raw[k], str):
+            return False
+    if "csiMethods" in raw:
+        if not isinstance(raw["csiMethods"], list):
+            return False
+        for m in raw["csiMethods"]:
+            if not isinstance(m, dict) or not isinstance(m.get("src"), str):
+                return False
+            if "dst" in m and not isinstance(m["dst"], str):
+                return False
+            for k in ("operator", "allowedWithoutCallee"):
+                if k in m and not isinstance(m[k], bool):
+                    return False
+    return True
+
+
 def raw_lines(raw):
     """The unresolved configuration as given by the caller (for the to_config model)."""
     L = []
     if not isinstance(raw, dict):
         return L
+    if raw_wellformed(raw):
+        # the model and the specifications then work with the configuration as coq/ToConfig.v resolves it from what the
+        # caller gave -- not with what the implementation made of it
+        L.append("RAWVALID")
     def b(k, name):
         if isinstance(raw.get(k), bool):
             L.append("RAWOPT\t%s\t%d" % (name, int(raw[k])))
